@@ -243,6 +243,18 @@ def ambiguous(variants, cats):
     return n > 1
 
 
+_GRP = [0]
+
+
+def _declare_upper(node):
+    if isinstance(node, dict):
+        return {k: ([r.upper() for r in v] if k == 'registers' else v.upper() if k == 'register' and isinstance(v, str) else _declare_upper(v))
+                for k, v in node.items()}
+    if isinstance(node, list):
+        return [_declare_upper(x) for x in node]
+    return node
+
+
 def run_group(acc, group, texts_list, upper=False):
     """group: list of (mnemonic, variants); all statements of the group share one ISA definition."""
     instructions, opsets = {}, {}
@@ -252,6 +264,11 @@ def run_group(acc, group, texts_list, upper=False):
         opsets.update(sets)
     isa = {'general': {'address_size': 16, 'endian': 'big', 'registers': REGS, 'min_version': '0.3.0'},
            'operand_sets': opsets, 'instructions': instructions}
+    # every third group declares its registers in upper case (A, B, SP): register names match without regard to letter case,
+    # whichever way the definition spells them
+    _GRP[0] += 1
+    if _GRP[0] % 3 == 2:
+        isa = _declare_upper(isa)
     header = [f'{k} = {v}' for k, v in LABELS.items()] + ['foo_x = 3']
     ok_lines, ok_bytes, pending = [], bytearray(), []
     addr = 0
